@@ -369,6 +369,12 @@ func (g *c10Gen) block(h int64, rep *Replica) (BlockIn, []string) {
 		case k < 13:
 			add(txRelease(v, g.memo()), fmt.Sprintf("release c%d", ci))
 		default:
+			if r.Intn(3) == 0 {
+				// a validator address that is not the address of the consensus key it names: must be refused (9246c8d)
+				o := cands[r.Intn(len(cands))]
+				add(c10StakeRaw(sc.Rogue[r.Intn(len(sc.Rogue))], o.Val.Pub, g.amount(), g.memo()), fmt.Sprintf("stake rogue with key of c%d", ci))
+				continue
+			}
 			// equalise with another candidate's stake (ties at the boundary)
 			o := cands[r.Intn(len(cands))]
 			os := g.stakeOf(d, o)
@@ -445,9 +451,8 @@ func c10Run(r *rand.Rand, kind string, hist int) []c10Case {
 		bb := rep.View()
 		eo := c10EvidenceOpts(bb)
 		c.Bvd = eo.BlockVotesDiff
-		if h > eo.BlockVotesDiff {
-			c.Mal = c10Frozen(bb, ids)
-		}
+		// 304e1e1: the frozen validators are collected at every height (before the early return)
+		c.Mal = c10Frozen(bb, ids)
 		for i, tx := range in.Txs {
 			res := rep.DeliverTx(tx)
 			lg := res.Log
